@@ -22,6 +22,7 @@ LEVEL = 'exploration'
 ASSUMPTIONS = ['references follow the docstrings; field resolution: an int below the header length is an index and has priority, names are consumed left to right',
                'functions that align by name (cat, dicts, columns, movefield) get distinct field names; negative field *selection* indices are not generated']
 WILD = ('<not judged>',)
+WRAP = [lambda t: t]     # C03 re-runs these forms with mutation-guarded inputs by installing probes.guard here
 
 
 class Form(object):
@@ -370,11 +371,11 @@ def judge(case, ctx):
     ctx.op('form:' + name)
     f = FORMS[name]
     if 'table' in case:
-        table = copy.deepcopy(case['table'])
+        table = WRAP[0](copy.deepcopy(case['table']))
         hdr, rows = table[0], [tuple(r) for r in table[1:]]
         tabs = [table]
     else:
-        tabs = copy.deepcopy(case['tables'])
+        tabs = [WRAP[0](t) for t in copy.deepcopy(case['tables'])]
         table = tabs[0]
         hdr, rows = table[0], [tuple(r) for r in table[1:]]
     nrows = sum(len(t) - 1 for t in tabs)
